@@ -1,9 +1,25 @@
 (* C01 - Every pin satisfies every requirement placed on it.  Statements and `exact` only. *)
 From Coq Require Import List String Bool NArith.
 From RC Require Import lib.Pep440 lib.Name model.Merge model.Graph model.Solver model.Check
-                       proofs.MergeP proofs.SolverP proofs.GraphP proofs.CheckP proofs.WitnessSolver proofs.SolverStatements.
+                       proofs.MergeP proofs.SolverP proofs.GraphP proofs.CheckP proofs.GraphWF proofs.SolverWF proofs.WitnessSolver proofs.SolverStatements.
 Import ListNotations.
 Open Scope string_scope.
+
+(* Exactly one version per project, for ALL universes, inputs, constraint sets, options and
+   walk-back histories: a successful compile never holds two nodes for one project key. *)
+Theorem C01_one_version_per_project_all_compiles :
+  forall fuel e u inputs cons rc ap md g roots,
+  perform_compile fuel e u inputs cons rc ap md = COk g roots ->
+  forall k id1 id2, In (k, id1) (index g) -> In (k, id2) (index g) -> id1 = id2.
+Proof. exact compile_one_version_per_project. Qed.
+Print Assumptions C01_one_version_per_project_all_compiles.
+
+(* ... and its index and heap of node objects are consistent (also for the graph attached to a
+   NoCandidateException), over any stack of repositories. *)
+Theorem C01_result_graph_well_formed_all_compiles :
+  forall fuel e u inputs cons rc md, cres_wf (perform_compile_stack fuel e u inputs cons rc md).
+Proof. exact perform_compile_stack_wf. Qed.
+Print Assumptions C01_result_graph_well_formed_all_compiles.
 
 (* The repository answer is an offered, readable candidate of that very project whose version
    lies in the request's specifier (under the flag of the pass that answered). *)
